@@ -62,6 +62,7 @@ def build_registry(mods):
     reg.models[common.is_opaque] = _models.m_is_opaque
     reg.models[common.sum_prefix] = _models.q_sum_prefix
     reg.models[common.count_prefix] = _models.q_count_prefix
+    reg.models[common.nat_of_str] = _models.q_nat_of_str
     reg.link()
     # loop specs keyed by (file, ast-qualname, ordinal)
     for (q, ordinal), ls in reg.loops.items():
